@@ -38,7 +38,7 @@ ASSUMPTIONS = [
     "cache key injective (C09), restore exact (C06), atomic per-target steps",
 ]
 
-FAMILIES_QUICK = [("edits", 5), ("wipe", 8), ("lostblob", 6), ("dirs", 4), ("alias", 5), ("nocache", 6), ("tamper", 3), ("disabled", 3), ("taint", 3)]
+FAMILIES_QUICK = [("edits", 4), ("wipe", 7), ("lostblob", 6), ("dirs", 3), ("alias", 5), ("nocache", 5), ("tamper", 3), ("disabled", 3), ("taint", 2)]
 FAMILIES_THOROUGH = [(f, n * 15) for f, n in FAMILIES_QUICK]
 
 
@@ -57,7 +57,9 @@ def run(ctx):
             hists.append(H.gen_history(ctx.rng, fam))
     ctx.coverage["rule"] = ("layered DAGs of 2-6 targets (aliases incl. chains, no-cache tags in the nocache/taint families); histories of edits / "
                             "tampering / taints / cache-disabled builds with random selections, each run twice in lock-step (all, minimal) "
-                            "in separate workspaces and cache roots; families: " + ", ".join("%s x%d" % f for f in fams) +
+                            "in separate workspaces and cache roots (wipe = fresh checkout with a warm cache / sources reverted; lostblob = chain with the "
+                            "blob of the middle target lost and its workspace copy removed; dirs = directory outputs whose entry set follows the inputs, "
+                            "tampered in place); families: " + ", ".join("%s x%d" % f for f in fams) +
                             "; non-trivial = distinct history with >=2 builds, one executing and one with a hit (in the minimal universe)")
     grog = ctx.grog_binary()
     if not grog:
